@@ -81,11 +81,17 @@ func (v FieldListValue) Value() veconst.FieldList {
 
 func (v FieldListValue) CommaString() string {
 	fields := v.value.Fields()
-	strs := make([]string, 0, len(fields))
+	setFields := make([]veconst.Field, 0, len(fields))
 	for f, set := range fields {
 		if !set {
 			continue
 		}
+		setFields = append(setFields, f)
+	}
+	// map iteration order is random; sort by index to get a reproducible output
+	sort.Slice(setFields, func(i, j int) bool { return setFields[i].Idx() < setFields[j].Idx() })
+	strs := make([]string, 0, len(setFields))
+	for _, f := range setFields {
 		strs = append(strs, f.String())
 	}
 	return strings.Join(strs, ", ")
